@@ -126,11 +126,15 @@ def local_limit_runs(tier, viols):
         # requests given in an --overrides file (not validated when it is read): above the
         # limits, negative ("as much as there is") and zero
         ("overrides", [{"threads": 1, "mem_gb": 1}] * 4, 2, 2),
+        # --localvmem: two jobs map more address space than was reserved for them (7 GB against
+        # 1 GB + the 3 GB every job is given on top) for a few refreshes of the free resources;
+        # the jobs after them fit the limit again
+        ("vmem_overuse", [{"threads": 1, "mem_gb": 1}] * 4, 1, 4),
     ]
     OVERRIDES = {"TOP.W0": {"chunk.threads": 8}, "TOP.W1": {"chunk.mem_gb": 9, "chunk.threads": 1.5}, "TOP.W2": {"chunk.threads": -1, "chunk.mem_gb": -1},
                  "TOP.W3": {"chunk.threads": 0, "chunk.mem_gb": 0}}
     if tier == "quick":
-        configs = configs[:3] + configs[-3:]
+        configs = configs[:3] + configs[-4:]
     report = []
     progs = []
     for name, ress, cores, mem in configs:
@@ -144,11 +148,14 @@ def local_limit_runs(tier, viols):
     for (name, ress, cores, mem), q in zip(configs, progs):
         for rep in range(1 if tier == "quick" else 4):
             c = procdrv.Cycle(root, os.path.join(base, "%s_%d" % (name, rep)), q, sem[q["name"]], name, delay_ms=120,
-                              cores=cores, mem=mem)
+                              cores=cores, mem=mem,
+                              vmap=({"TOP.W0[]/main/0": 7000, "TOP.W1[]/main/0": 7000} if name == "vmem_overuse" else None),
+                              delays=({"TOP.W0[]/main/0": 7000, "TOP.W1[]/main/0": 7000} if name == "vmem_overuse" else None),
+                              extra_args=(["--localvmem=8"] if name == "vmem_overuse" else ()))
             if name == "overrides":
                 json.dump(OVERRIDES, open(os.path.join(c.wd, "overrides.json"), "w"))
                 c.extra.append("--overrides=" + os.path.join(c.wd, "overrides.json"))
-            rc_, dt = c.run(timeout=(60 if name in ("fraction_then_all", "whole_mem", "overrides") else 180))
+            rc_, dt = c.run(timeout=(60 if name in ("fraction_then_all", "whole_mem", "overrides") else 90 if name == "vmem_overuse" else 180))
             evs = c.events()
             running = {}
             peak_t = peak_m = 0.0
